@@ -81,7 +81,8 @@ theorem clLow_trans (a b c : Cluster K) (h1 : ClLow a b) (h2 : ClLow b c) : ClLo
 
 theorem reviseCl_stand_cov (pts : List (Pt K)) (c : Cluster K) :
     (reviseCl pts c).stand = c.stand ∧ (reviseCl pts c).cov = c.cov := by
-  unfold reviseCl updateCl standRule
+  unfold reviseCl updateCl
+  simp only [standRule_def]
   split <;> exact ⟨rfl, rfl⟩
 
 theorem clLow_reviseCl (pts : List (Pt K)) (c : Cluster K) : ClLow c (reviseCl pts c) := by
